@@ -447,9 +447,17 @@ fn task_reject(
                 return false;
             }
         }
+        TaskRuntimeState::RunningMultiNode(ws) => {
+            // The root worker refuses a multi-node task that was placed on it (e.g. its remaining
+            // time is now shorter than the time request); it has not started the task
+            if worker_id != ws[0] || worker.mn_assignment().is_none_or(|a| a.is_started) {
+                log::debug!("Rejection from invalid worker");
+                return false;
+            }
+            reset_mn_task_workers(worker_map, ws, task_id);
+        }
         TaskRuntimeState::Waiting { .. }
         | TaskRuntimeState::Running { .. }
-        | TaskRuntimeState::RunningMultiNode(_)
         | TaskRuntimeState::Finished => {
             unreachable!()
         }
